@@ -351,6 +351,7 @@ fn lattice(seed: u64, max_subset: usize) -> Acc {
         let c = w.add_config(300);
         let c2 = w.add_config(300);
         w.add_config_extension(c);
+        w.add_config_extension(c2);
         let cfg = w.configs[c].clone();
         let cfg2 = w.configs[c2].clone();
         let o = w.exec(b::SetConfigFeatureFlag { whirlpools_config: cfg.key, authority: ADMIN }.ix(b::ConfigFeatureFlag::TokenBadge(true)));
@@ -370,6 +371,30 @@ fn lattice(seed: u64, max_subset: usize) -> Acc {
         // a pool to attach rewards to
         let rp = w.add_pool(c, lo_key, hi_key, 64, 3000, 1u128 << 64, false).ok().expect("reward pool");
         let base = w.bank.clone();
+        // ---- who may issue a token badge (badges are what admits a gated mint): only the badge authority recorded in the
+        //      extension of the SAME config; the other config's extension / authority, in any combination, must be refused ----
+        {
+            let probe_mint = w.add_t22_mint(6, None);
+            let bank0 = w.bank.clone();
+            let (ext1, ext2) = (b::pda_config_extension(cfg.key).0, b::pda_config_extension(cfg2.key).0);
+            let mk = |ext: Pubkey, auth: Pubkey| b::InitializeTokenBadge { whirlpools_config: cfg.key, whirlpools_config_extension: ext, token_badge_authority: auth, token_mint: probe_mint, token_badge: b::pda_token_badge(cfg.key, probe_mint).0, funder: ADMIN, system_program: system_program::ID }.ix();
+            for (label, ix, must_fail) in [
+                ("own_extension_own_authority", mk(ext1, cfg.token_badge_authority), false),
+                ("other_extension_other_authority", mk(ext2, cfg2.token_badge_authority), true),
+                ("own_extension_other_authority", mk(ext1, cfg2.token_badge_authority), true),
+                ("other_extension_own_authority", mk(ext2, cfg.token_badge_authority), true),
+            ] {
+                let (o, _) = w.simulate(&bank0, &ix);
+                acc.evaluations += 1;
+                acc.count("badge_issuance_probes");
+                if must_fail && o.ok() {
+                    acc.violation(format!("c19:token_badge_issued_without_the_configs_authority:{label}"), format!("initialize_token_badge created a badge for config {} with {label}", cfg.key), json!({"case": label}));
+                } else if !must_fail && o.ok() {
+                    acc.count("badge_issuance_control_accepted");
+                }
+            }
+            w.bank = base.clone();
+        }
         for (si, subset) in subsets.iter().enumerate() {
             if si % 16 != sh {
                 continue;
@@ -440,6 +465,21 @@ fn lattice(seed: u64, max_subset: usize) -> Acc {
                             if pos == "as_mint_a" { "initialize_pool_with_adaptive_fee:as_mint_a" } else { "initialize_pool_with_adaptive_fee:as_mint_b" },
                             b::InitializePoolWithAdaptiveFee { whirlpools_config: cfg.key, token_mint_a: ma, token_mint_b: mb, token_badge_a: b::pda_token_badge(cfg.key, ma).0, token_badge_b: b::pda_token_badge(cfg.key, mb).0, funder: ADMIN, initialize_pool_authority: ADMIN, whirlpool: pool2, oracle: b::pda_oracle(pool2).0, token_vault_a: va2, token_vault_b: vb2, adaptive_fee_tier: aft, token_program_a: prog(&ma), token_program_b: prog(&mb), system_program: system_program::ID, rent: RENT_ID }.ix(1u128 << 64, None),
                         ));
+                    }
+                    // ---- the legacy paths know nothing of Token-2022: offered the same mint with either token program
+                    //      they must not create a pool or a reward over a mint the allow-list forbids ----
+                    for (label, prog) in [("initialize_reward(legacy):token_2022_program", TOKEN22), ("initialize_reward(legacy):token_program", TOKEN)] {
+                        let rv = w.new_key();
+                        runs.push((label, b::InitializeReward { reward_authority: w.pools[rp].reward_authority, funder: ADMIN, whirlpool: w.pools[rp].key, reward_mint: mint, reward_vault: rv, token_program: prog, system_program: system_program::ID, rent: RENT_ID }.ix(0)));
+                    }
+                    {
+                        let partner = hi_key;
+                        let (ma, mb) = if mint < partner { (mint, partner) } else { (partner, mint) };
+                        let (pool, bump) = b::pda_whirlpool(cfg.key, ma, mb, 64);
+                        for (label, prog) in [("initialize_pool(legacy):token_2022_program", TOKEN22), ("initialize_pool(legacy):token_program", TOKEN)] {
+                            let (va, vb) = (w.new_key(), w.new_key());
+                            runs.push((label, b::InitializePool { whirlpools_config: cfg.key, token_mint_a: ma, token_mint_b: mb, funder: ADMIN, whirlpool: pool, token_vault_a: va, token_vault_b: vb, fee_tier: b::pda_fee_tier(cfg.key, 64).0, token_program: prog, system_program: system_program::ID, rent: RENT_ID }.ix(b::WhirlpoolBumps { whirlpool_bump: bump }, 64, 1u128 << 64)));
+                        }
                     }
                     let rv = w.new_key();
                     runs.push(("initialize_reward_v2", b::InitializeRewardV2 { reward_authority: w.pools[rp].reward_authority, funder: ADMIN, whirlpool: w.pools[rp].key, reward_mint: mint, reward_token_badge: badge_key, reward_vault: rv, reward_token_program: TOKEN22, system_program: system_program::ID, rent: RENT_ID }.ix(0)));
